@@ -303,6 +303,10 @@ def global_dt(check, proj):
         check.violation("GLOBAL-DT", "integration.timemodel", text, "%s:%d" % (f.module.relpath, ln or f.node.lineno), key=key)
     for text, ln in und:
         check.undecided("GLOBAL-DT", "integration.timemodel", text, "%s:%d" % (f.module.relpath, ln or f.node.lineno))
+    from ..driver_rules import analyse_entry_points
+    from .c07 import report
+    analyse_entry_points(proj, res)
+    report(check, res, ("DRV-FORWARD",))
     if not bad and not und:
         check.ok("GLOBAL-DT", "integration.timemodel", "_solve hands the per-cell array to step() only under the dtlocal directive, solve_legacy never: every cell advances by the same scalar step", f.loc())
 
